@@ -657,25 +657,49 @@ theorem scriptObs_ordered (evs : List Event) : OrderedObs (scriptObs evs) :=
   ⟨fun o ho => scriptObsFrom_lb 0 0 evs o ho, scriptObsFrom_pairwise 0 0 evs⟩
 
 /-- the script of a routed stream in time order is observed as the stream's
-observation sequence (all at quiescence) -/
-theorem scriptObsFrom_scriptOf {α : Type} (m : α → Bool) (arr : List (Int × α)) (clk : Int) (i : Nat)
-    (hlb : ∀ a ∈ arr, clk ≤ a.1) (hs : arr.Pairwise (fun a b => a.1 ≤ b.1)) :
-    scriptObsFrom clk i (scriptOf m arr) = obsFrom m quiescent i arr := by
+observation sequence (all at quiescence), whatever the script's sync flags -/
+theorem scriptObsFrom_scriptFrom {α : Type} (m : α → Bool) (sy : Nat → Bool) (arr : List (Int × α)) (clk : Int)
+    (i : Nat) (hlb : ∀ a ∈ arr, clk ≤ a.1) (hs : arr.Pairwise (fun a b => a.1 ≤ b.1)) :
+    scriptObsFrom clk i (scriptFrom m sy i arr) = obsFrom m quiescent i arr := by
   induction arr generalizing clk i with
   | nil => rfl
   | cons a arr ih =>
     have h1 : max a.1 clk = a.1 := Int.max_eq_left (hlb a (List.mem_cons_self ..))
     rw [List.pairwise_cons] at hs
-    simp only [scriptOf, List.map_cons, scriptObsFrom, obsFrom, h1]
-    have := ih a.1 (i + 1) hs.1 hs.2
-    simp only [scriptOf] at this
-    rw [this]
+    simp only [scriptFrom, scriptObsFrom, obsFrom, h1]
+    rw [ih a.1 (i + 1) hs.1 hs.2]
     congr 1
     cases hm : m a.2 <;> simp [kindOf, obsKind, hm, quiescent]
 
+theorem scriptObs_scriptFrom {α : Type} (m : α → Bool) (sy : Nat → Bool) (arr : List (Int × α)) (ho : Ordered arr) :
+    scriptObs (scriptFrom m sy 0 arr) = obsOf m quiescent arr :=
+  scriptObsFrom_scriptFrom m sy arr 0 0 ho.1 ho.2
+
 theorem scriptObs_scriptOf {α : Type} (m : α → Bool) (arr : List (Int × α)) (ho : Ordered arr) :
     scriptObs (scriptOf m arr) = obsOf m quiescent arr :=
-  scriptObsFrom_scriptOf m arr 0 0 ho.1 ho.2
+  scriptObs_scriptFrom m quiescent arr ho
+
+theorem scriptFrom_arrivals {α : Type} (m : α → Bool) (sy : Nat → Bool) (i : Nat) (arr : List (Int × α)) :
+    ArrivalsOnly (scriptFrom m sy i arr) := by
+  induction arr generalizing i with
+  | nil => intro e he; simp [scriptFrom] at he
+  | cons a arr ih =>
+    intro e he
+    simp only [scriptFrom, List.mem_cons] at he
+    rcases he with rfl | he
+    · cases m a.2 <;> rfl
+    · exact ih (i + 1) e he
+
+theorem scriptFrom_sync {α : Type} (m : α → Bool) (sy : Nat → Bool) (i : Nat) (arr : List (Int × α))
+    (h : ∀ j, sy j = true) : ∀ e ∈ scriptFrom m sy i arr, e.sync = true := by
+  induction arr generalizing i with
+  | nil => intro e he; simp [scriptFrom] at he
+  | cons a arr ih =>
+    intro e he
+    simp only [scriptFrom, List.mem_cons] at he
+    rcases he with rfl | he
+    · exact h i
+    · exact ih (i + 1) e he
 
 /-! ### groups of an arrivals-only script -/
 
@@ -766,5 +790,246 @@ theorem mergeOrders_arrivals (g : Group) (h : ∀ x ∈ g, isArrival x.2 = true)
   rw [hc _ (Or.inl rfl), hc _ (Or.inr rfl)]
   simp only
   rw [List.filter_eq_self.2 (fun x hx => h x hx)]
+
+/-! ### what a racing group can make the caller observe -/
+
+/-- How a view of a group may differ from the quiescent one, element by
+element: same instant, same datagram; the kind unchanged or `irr` (the datagram
+was lost in the hand-over between two tries); the flag is free. -/
+inductive WeakV : List Obs → List Obs → Prop
+  | nil : WeakV [] []
+  | cons {o o0 : Obs} {v v0 : List Obs} : o.t = o0.t → o.tag = o0.tag → (o.kind = o0.kind ∨ o.kind = .irr) →
+      WeakV v v0 → WeakV (o :: v) (o0 :: v0)
+
+theorem WeakV.append {a a0 b b0 : List Obs} (h1 : WeakV a a0) (h2 : WeakV b b0) : WeakV (a ++ b) (a0 ++ b0) := by
+  induction h1 with
+  | nil => exact h2
+  | cons ht hg hk _ ih => exact WeakV.cons ht hg hk ih
+
+theorem weakV_toObs_same (t : Int) (a : Bool) (l : Group) : WeakV (toObs t a l) (toObs t true l) := by
+  induction l with
+  | nil => exact WeakV.nil
+  | cons e l ih => exact WeakV.cons rfl rfl (Or.inl rfl) ih
+
+theorem weakV_lose (t : Int) (a : Bool) : ∀ (l : Group) (j : Nat), WeakV (toObs t a (lose j l)) (toObs t true l) := by
+  intro l
+  induction l with
+  | nil => intro j; cases j <;> exact WeakV.nil
+  | cons e l ih =>
+    intro j
+    cases j with
+    | zero => exact weakV_toObs_same t a (e :: l)
+    | succ j =>
+      obtain ⟨i, k⟩ := e
+      simp only [lose]
+      split
+      · exact WeakV.cons rfl rfl (Or.inr rfl) (ih j)
+      · exact WeakV.cons rfl rfl (Or.inl rfl) (ih (j + 1))
+
+/-- The views of a group of arrivals: the quiescent one; when the group races
+with a deadline, also any weakening of it. -/
+theorem groupViews_arrivals (t : Int) (b : Bool) (g : Group) (h : ∀ x ∈ g, isArrival x.2 = true) :
+    ∀ w ∈ groupViews t b g, w = toObs t true g ∨ (b = true ∧ WeakV w (toObs t true g)) := by
+  intro w hw
+  unfold groupViews at hw
+  rw [mergeOrders_arrivals g h] at hw
+  cases b with
+  | false =>
+    simp at hw
+    exact Or.inl hw
+  | true =>
+    simp only [if_true, List.flatMap_cons, List.flatMap_nil, List.append_nil, List.mem_flatMap, List.mem_map] at hw
+    obtain ⟨p, _, j, _, rfl⟩ := hw
+    right
+    refine ⟨rfl, ?_⟩
+    have : toObs t true g = toObs t true (g.take p) ++ toObs t true (g.drop p) := by
+      simp only [toObs, ← List.map_append, List.take_append_drop]
+    rw [this]
+    exact WeakV.append (weakV_toObs_same t false _) (weakV_lose t true _ j)
+
+/-- a deadline falls on `t` only if `t` is `T·(2^(k+1) − 1)` for some `k` -/
+theorem deadlineAt_off {T n : Int} (hT : 0 < T) (st : CState) (hi : Inv T n st) (t : Int)
+    (h : deadlineAt n st t = true) : ∃ k : Nat, t = off T (k + 1) := by
+  unfold deadlineAt at h
+  cases st with
+  | done txs t' o => simp at h
+  | waiting w =>
+    simp only at h
+    rcases advance_spec hT t false _ w hi.1 (advanceFuel_ok _ _) with ⟨w', hw', g', _, _, _⟩ | ⟨hd, _, _, _⟩
+    · rw [hw'] at h
+      simp only [decide_eq_true_eq] at h
+      exact ⟨w'.k, by rw [← h, g'.deadline]⟩
+    · rw [hd] at h; simp at h
+
+/-- what one group may contribute to the caller's observation sequence -/
+def ViewOfGroup (T : Int) (g : Int × Bool × Group) (w : List Obs) : Prop :=
+  w = viewOf g ∨ (g.2.1 = true ∧ (∃ k : Nat, g.1 = off T (k + 1)) ∧ WeakV w (viewOf g))
+
+/-- an observation sequence the groups `gs` allow -/
+inductive Views (T : Int) : List (Int × Bool × Group) → List Obs → Prop
+  | nil : Views T [] []
+  | cons {g : Int × Bool × Group} {gs : List (Int × Bool × Group)} {w v : List Obs} :
+      ViewOfGroup T g w → Views T gs v → Views T (g :: gs) (w ++ v)
+
+theorem Views.snoc {T : Int} {gs : List (Int × Bool × Group)} {v : List Obs} (h : Views T gs v)
+    {g : Int × Bool × Group} {w : List Obs} (hg : ViewOfGroup T g w) : Views T (gs ++ [g]) (v ++ w) := by
+  induction h with
+  | nil => simpa using Views.cons hg Views.nil
+  | cons hg' _ ih =>
+    rw [List.cons_append, List.append_assoc]
+    exact Views.cons hg' ih
+
+theorem foldGroups_views {T n : Int} (hT : 0 < T) (todo : List (Int × Bool × Group)) :
+    (∀ g ∈ todo, ∀ x ∈ g.2.2, isArrival x.2 = true) →
+    ∀ (dn : List (Int × Bool × Group)) (sts : List CState),
+      (∀ s ∈ sts, ∃ v, s = runFrom n (begin T n) v ∧ Views T dn v) →
+      ∀ s ∈ todo.foldl (fun sts (g : Int × Bool × Group) => stepGroup n g.1 g.2.1 g.2.2 sts) sts,
+        ∃ v, s = runFrom n (begin T n) v ∧ Views T (dn ++ todo) v := by
+  induction todo with
+  | nil => intro _ dn sts h s hs; simpa using h s hs
+  | cons g gs ih =>
+    intro harr dn sts h s hs
+    have key : ∀ s ∈ stepGroup n g.1 g.2.1 g.2.2 sts, ∃ v, s = runFrom n (begin T n) v ∧ Views T (dn ++ [g]) v := by
+      intro s hs
+      unfold stepGroup at hs
+      rw [mem_dedup, List.mem_flatMap] at hs
+      obtain ⟨st, hst, hs⟩ := hs
+      rw [List.mem_map] at hs
+      obtain ⟨w, hw, rfl⟩ := hs
+      obtain ⟨v, rfl, hv⟩ := h st hst
+      refine ⟨v ++ w, (runFrom_append n _ v w).symm, hv.snoc ?_⟩
+      rcases groupViews_arrivals g.1 _ g.2.2 (harr g (List.mem_cons_self ..)) w hw with hw | ⟨hb, hw⟩
+      · exact Or.inl hw
+      · right
+        simp only [Bool.and_eq_true] at hb
+        exact ⟨hb.1, deadlineAt_off hT _ (runFrom_inv hT v _ (begin_inv (T := T) n)) g.1 hb.2, hw⟩
+    have := ih (fun g' hg' => harr g' (List.mem_cons_of_mem _ hg')) (dn ++ [g]) _ key s hs
+    simpa using this
+
+/-- **Every result the script-level model allows for a script of datagram
+injections is the caller-level machine run on an observation sequence the
+script's groups allow** (`Views`): per group either the quiescent view or,
+only for a group that races with a per-try deadline falling on its instant,
+a weakening of it. -/
+theorem runCall_views {T n : Int} (hT : 0 < T) (evs : List Event) (H : Int) (harr : ArrivalsOnly evs) (r : Result)
+    (h : r ∈ runCall T n evs H) : ∃ v, r = runObs T n v H ∧ Views T (groups evs) v := by
+  unfold runCall at h
+  rw [mem_dedup, List.mem_map] at h
+  obtain ⟨st, hst, rfl⟩ := h
+  obtain ⟨v, rfl, hv⟩ := foldGroups_views (n := n) hT (groups evs) (groups_arrivals evs harr) [] [begin T n]
+    (fun s hs => ⟨[], by simp at hs; subst hs; rfl, Views.nil⟩) st hst
+  exact ⟨v, rfl, by simpa using hv⟩
+
+/-- no group both races and sits on a deadline: the only view is the quiescent one -/
+theorem Views.eq_of_noRace {T : Int} {gs : List (Int × Bool × Group)} {v : List Obs} (h : Views T gs v)
+    (hn : ∀ g ∈ gs, g.2.1 = false ∨ ∀ k : Nat, g.1 ≠ off T (k + 1)) : v = gs.flatMap viewOf := by
+  induction h with
+  | nil => rfl
+  | @cons g gs w v hg _ ih =>
+    rw [List.flatMap_cons, ← ih (fun g' hg' => hn g' (List.mem_cons_of_mem _ hg'))]
+    rcases hg with hg | ⟨hr, ⟨k, hk⟩, _⟩
+    · rw [hg]
+    · rcases hn g (List.mem_cons_self ..) with h' | h'
+      · rw [h'] at hr; cases hr
+      · exact absurd hk (h' k)
+
+/-- Element by element, with the reason: an observation differs from the
+quiescent one only when its instant is a retransmission deadline. -/
+inductive WeakD (T : Int) : List Obs → List Obs → Prop
+  | nil : WeakD T [] []
+  | cons {o o0 : Obs} {v v0 : List Obs} : o.t = o0.t → o.tag = o0.tag →
+      (o = o0 ∨ ((o.kind = o0.kind ∨ o.kind = .irr) ∧ ∃ k : Nat, o0.t = off T (k + 1))) →
+      WeakD T v v0 → WeakD T (o :: v) (o0 :: v0)
+
+theorem WeakD.refl (T : Int) (v : List Obs) : WeakD T v v := by
+  induction v with
+  | nil => exact WeakD.nil
+  | cons o v ih => exact WeakD.cons rfl rfl (Or.inl rfl) ih
+
+theorem WeakD.append {T : Int} {a a0 b b0 : List Obs} (h1 : WeakD T a a0) (h2 : WeakD T b b0) :
+    WeakD T (a ++ b) (a0 ++ b0) := by
+  induction h1 with
+  | nil => exact h2
+  | cons ht hg hk _ ih => exact WeakD.cons ht hg hk ih
+
+theorem WeakV.toD {T : Int} {w w0 : List Obs} (h : WeakV w w0) (hd : ∀ o0 ∈ w0, ∃ k : Nat, o0.t = off T (k + 1)) :
+    WeakD T w w0 := by
+  induction h with
+  | nil => exact WeakD.nil
+  | @cons o o0 v v0 ht hg hk _ ih =>
+    exact WeakD.cons ht hg (Or.inr ⟨hk, hd o0 (List.mem_cons_self ..)⟩)
+      (ih (fun o' ho' => hd o' (List.mem_cons_of_mem _ ho')))
+
+theorem Views.weakD {T : Int} {gs : List (Int × Bool × Group)} {v : List Obs} (h : Views T gs v) :
+    WeakD T v (gs.flatMap viewOf) := by
+  induction h with
+  | nil => exact WeakD.nil
+  | @cons g gs w v hg _ ih =>
+    rw [List.flatMap_cons]
+    refine WeakD.append ?_ ih
+    rcases hg with hg | ⟨_, ⟨k, hk⟩, hw⟩
+    · rw [hg]; exact WeakD.refl T _
+    · refine hw.toD ?_
+      intro o0 ho0
+      simp only [viewOf, toObs, List.mem_map] at ho0
+      obtain ⟨e, _, rfl⟩ := ho0
+      exact ⟨k, hk⟩
+
+theorem WeakD.mem_t {T : Int} {v v0 : List Obs} (h : WeakD T v v0) : ∀ o ∈ v, ∃ o0 ∈ v0, o.t = o0.t := by
+  induction h with
+  | nil => intro o ho; cases ho
+  | @cons o o0 v v0 ht _ _ _ ih =>
+    intro x hx
+    rcases List.mem_cons.1 hx with rfl | hx
+    · exact ⟨o0, List.mem_cons_self .., ht⟩
+    · obtain ⟨y, hy, hxy⟩ := ih x hx
+      exact ⟨y, List.mem_cons_of_mem _ hy, hxy⟩
+
+theorem WeakD.ordered {T : Int} {v v0 : List Obs} (h : WeakD T v v0) (ho : OrderedObs v0) : OrderedObs v := by
+  constructor
+  · intro o hoo
+    obtain ⟨o0, ho0, ht⟩ := h.mem_t o hoo
+    rw [ht]; exact ho.1 o0 ho0
+  · have hp := ho.2
+    clear ho
+    induction h with
+    | nil => exact List.Pairwise.nil
+    | @cons o o0 v v0 ht _ _ hv ih =>
+      rw [List.pairwise_cons] at hp ⊢
+      refine ⟨fun x hx => ?_, ih hp.2⟩
+      obtain ⟨y, hy, hxy⟩ := hv.mem_t x hx
+      rw [ht, hxy]; exact hp.1 y hy
+
+theorem WeakD.split {T : Int} : ∀ (pre : List Obs) {v v0 : List Obs} (o : Obs) (post : List Obs),
+    WeakD T v v0 → v = pre ++ o :: post →
+    ∃ pre0 o0 post0, v0 = pre0 ++ o0 :: post0 ∧ WeakD T pre pre0 ∧ o.t = o0.t ∧ o.tag = o0.tag ∧
+      (o = o0 ∨ ((o.kind = o0.kind ∨ o.kind = .irr) ∧ ∃ k : Nat, o0.t = off T (k + 1))) := by
+  intro pre
+  induction pre with
+  | nil =>
+    intro v v0 o post h heq
+    subst heq
+    cases h with
+    | cons ht hg hk hv => exact ⟨[], _, _, rfl, WeakD.nil, ht, hg, hk⟩
+  | cons x pre ih =>
+    intro v v0 o post h heq
+    subst heq
+    cases h with
+    | @cons _ x0 _ v0' ht hg hk hv =>
+      obtain ⟨pre0, o0, post0, h1, h2, h3⟩ := ih o post hv rfl
+      exact ⟨x0 :: pre0, o0, post0, by rw [h1]; rfl, WeakD.cons ht hg hk h2, h3⟩
+
+/-- quiet observations stand for quiet ones, or for ones on a deadline -/
+theorem WeakD.quiet_pre {T : Int} {pre pre0 : List Obs} (h : WeakD T pre pre0) (hq : Quiet pre) :
+    ∀ q0 ∈ pre0, q0.kind = .acc → ∃ k : Nat, q0.t = off T (k + 1) := by
+  induction h with
+  | nil => intro q0 h; cases h
+  | @cons o o0 v v0 _ _ hk _ ih =>
+    intro q0 hq0 hacc
+    rcases List.mem_cons.1 hq0 with rfl | hq0
+    · rcases hk with rfl | ⟨_, hd⟩
+      · rcases hq _ (List.mem_cons_self ..) with h | h <;> rw [h] at hacc <;> cases hacc
+      · exact hd
+    · exact ih (fun x hx => hq x (List.mem_cons_of_mem _ hx)) q0 hq0 hacc
 
 end Dhcp.Client.Refine
